@@ -164,6 +164,7 @@ def _o_rem_dup(call):
 
 
 def install():
+    probe.enable_argflip({"match": lambda a, k: not (k.get("presorted") or (len(a) > 2 and a[2])), "unique": None, "rem_dup": None}, every=4)
     probe.enable_recall("C06.recall", every=5)
     m = "esutil.numpy_util:"
     probe.instrument(m + "match", [_o_match])
